@@ -88,8 +88,39 @@ def differential(ctx, scs, impl):
     ctx.extra['runs_in_other_configurations'] = runs
 
 
+def waiters_family(rng, n):
+    """several activities queue on ONE notification (a lock, a flag, a queue); some of them leave the queue early (an
+    until-timeout or a cancel) before the others are woken: the rest must be served in the order in which they
+    started waiting"""
+    out = []
+    for _ in range(n):
+        k = rng.choice([3, 4, 5])
+        kind = rng.choice(['lock', 'lock', 'queue', 'flag'])
+        leave = rng.sample(range(k), rng.choice([1, 1, 2]))
+        roots = []
+        if kind == 'lock':
+            roots.append([['with_lock', 0, [['log', 1], ['await', ['delay', 5]], ['log', 2]]]])
+        for i in range(k):
+            pre = [['await', ['delay', rng.choice([1, 1, 2])]]] if rng.random() < 0.7 else [['await', ['instant']]]
+            if kind == 'lock':
+                w = [['with_lock', 0, [['log', 10 + i], ['await', ['instant']]]]]
+            elif kind == 'queue':
+                w = [['get', 0], ['log', 10 + i]]
+            else:
+                w = [['await', ['flag', 0]], ['log', 10 + i]]
+            if i in leave:
+                w = [['until', 50 + i, ['delay', rng.choice([1, 2, 3])], w], ['log', 30 + i]]
+            roots.append(pre + w)
+        if kind == 'queue':
+            roots.append([['await', ['delay', 5]]] + [['put', 0, 100 + j] for j in range(k)])
+        if kind == 'flag':
+            roots.append([['await', ['delay', 5]], ['set_flag', 0, True]])
+        out.append(('waiters', dict(start=0, till=None, roots=roots, nflags=1, tracked=[0], nlocks=1, nqueues=1, nchans=1, res=[])))
+    return out
+
+
 def run(ctx):
-    scs, impl = machine_prop.run(ctx, FAMILIES, MONITORS)
+    scs, impl = machine_prop.run(ctx, FAMILIES, MONITORS, extra_scenarios=waiters_family(ctx.rng, ctx.n(60, 1000)))
     differential(ctx, scs, impl)
 
 
